@@ -197,6 +197,24 @@ func gen(r *hx.Rand) [][]*big.Int {
 			cs = append(cs, b.I(4, 128).Big(v).I(plen).L)
 		}
 	}
+	// nested subnets sharing one base address, queried in sequence (guards against
+	// results remembered under too coarse a key)
+	for j := 0; j < 4*n; j++ {
+		w := 32
+		if rg.Bool() {
+			w = 128
+		}
+		p0 := rg.Range(0, w-2)
+		base := rg.Big(w)
+		base.Rsh(base, uint(w-p0)).Lsh(base, uint(w-p0))
+		if w == 128 && new(big.Int).Rsh(base, 32).Cmp(big.NewInt(0xffff)) == 0 {
+			continue
+		}
+		for k := 0; k < 4; k++ {
+			var b hx.B
+			cs = append(cs, b.I(4, w).Big(base).I(rg.Range(p0, w)).L)
+		}
+	}
 	// route tables
 	for j := 0; j < 20*n; j++ {
 		var b hx.B
